@@ -113,7 +113,7 @@ func (e *Engine) verifyFunc(fn *ssa.Function, c *Contract, sweep bool) (u *Unit,
 	if c == nil && fn.Signature.Recv() != nil && len(fn.Params) > 0 {
 		// zero-annotation sweep: a method is analysed for non-nil receivers; the call sites of
 		// contract-less methods carry the matching obligation
-		if _, isPtr := fn.Params[0].Type().Underlying().(*types.Pointer); isPtr {
+		if _, isPtr := fn.Params[0].Type().Underlying().(*types.Pointer); isPtr && !nilGuarded(fn) {
 			st.assume(not(eq(st.vals[fn.Params[0]], intLit(0))))
 			u.note("sweep: methods without contract are analysed for a non-nil receiver (checked at their call sites)")
 		}
@@ -1070,4 +1070,49 @@ func (u *Unit) typeFrameCheck() {
 	}
 	o.Decided = true
 	u.obls = append(u.obls, o)
+}
+
+// nilGuarded: the method starts by comparing its receiver with nil (it is meant to be callable on nil),
+// or never dereferences its receiver itself (it only passes it on).
+func nilGuarded(fn *ssa.Function) bool {
+	if len(fn.Params) == 0 || len(fn.Blocks) == 0 {
+		return false
+	}
+	derefs := false
+	recv := ssa.Value(fn.Params[0])
+	for _, b := range fn.Blocks {
+		for _, ins := range b.Instrs {
+			switch x := ins.(type) {
+			case *ssa.FieldAddr:
+				if x.X == recv {
+					derefs = true
+				}
+			case *ssa.UnOp:
+				if x.Op == token.MUL && x.X == recv {
+					derefs = true
+				}
+			case *ssa.Store:
+				if x.Addr == recv {
+					derefs = true
+				}
+			}
+		}
+	}
+	if !derefs {
+		return true
+	}
+	for _, ins := range fn.Blocks[0].Instrs {
+		switch x := ins.(type) {
+		case *ssa.DebugRef:
+			continue
+		case *ssa.BinOp:
+			if (x.Op == token.EQL || x.Op == token.NEQ) && (x.X == ssa.Value(fn.Params[0]) || x.Y == ssa.Value(fn.Params[0])) {
+				return true
+			}
+			return false
+		default:
+			return false
+		}
+	}
+	return false
 }
